@@ -477,7 +477,32 @@ func registerStubs(e *Engine) {
 		if s, ok := args[0].(string); ok {
 			return strings.TrimSpace(s)
 		}
-		panic(unsupported{"TrimSpace on symbolic string"})
+		// symbolic bytes: fork on "is ASCII white space" at either end. A byte >= 0x80
+		// starts a multi-byte rune (U+0085, U+00A0, U+2000...): only the lone-byte case
+		// (invalid UTF-8, RuneError, not a space) is modelled, anything longer is unsupported.
+		b := strBytes(args[0])
+		isSpace := func(x value, rest int) bool {
+			t := termOf(x)
+			if fr.ex.decide(Not(Bin("bvult", t, BV(8, 0x80)))) {
+				if rest == 1 {
+					return false
+				}
+				panic(unsupported{"TrimSpace on a symbolic multi-byte rune"})
+			}
+			sp := Eq(t, BV(8, ' '))
+			for _, c := range []byte{'\t', '\n', '\v', '\f', '\r'} {
+				sp = Or(sp, Eq(t, BV(8, uint64(c))))
+			}
+			return fr.ex.decide(sp)
+		}
+		lo, hi := 0, len(b)
+		for lo < hi && isSpace(b[lo], hi-lo) {
+			lo++
+		}
+		for hi > lo && isSpace(b[hi-1], hi-lo) {
+			hi--
+		}
+		return mkstr(b[lo:hi])
 	})
 	e.reg("unicode/utf8.ValidString", func(fr *frame, args []value) value {
 		if s, ok := args[0].(string); ok {
